@@ -400,8 +400,9 @@ Definition spec_font (fx : bool) (f : fnt) : tattr :=
   mkT (eff default_TextAnchor (f_anchor f)) (eff default_Baseline (f_base f))
       (Some (f_size f)) (Some (f_weight f)) (eff default_FontStyle (f_style f))
       (if fx then eff default_FontFamily (f_family f)
-       else (* the default family is never written: the viewer's default applies *)
-         nds default_FontFamily (f_family f))
+       else (* the default family is written nowhere unless the root element carries it
+               (root_FontFamily = "" today: the viewer's default applies) *)
+         pick_s (nds default_FontFamily (f_family f)) root_FontFamily)
       (Some (f_ls f)).
 
 Definition spec_text_paint (fx : bool) (p : pen) : eattr :=
